@@ -1,4 +1,5 @@
 import PewProofs.Filters
+import PewProofs.FiltersFloat
 
 /-! # C13 — property theorems (statements only depend on `PewModel.Filters`) -/
 namespace Pew.Filters
@@ -375,5 +376,108 @@ theorem constant_unchanged2 (h0 h1 n1 : Nat) (t : Option Rat) (x : List (List Ra
   exact ⟨fin _ l1 r1 (fun i j hi hj => (key i j hi hj).1), fin _ l2 r2 (fun i j hi hj => (key i j hi hj).2)⟩
 
 example : ∀ r ∈ ([[4, 4, 4], [4, 4, 4], [4, 4, 4]] : List (List Rat)), ∀ v ∈ r, v = 4 := by decide
+
+/-! ## the two "comes back unchanged" clauses as the one condition the check evaluates -/
+
+/-- 1-D: a constant signal, or an infinite threshold: both filters return the input, every pixel of it. -/
+theorem unchanged_clause1 (h : Nat) (t : Option Rat) (x : List Rat) (h1 : 1 ≤ h)
+    (hu : mustBeUnchanged t x = true) :
+    rollingMean1 (2 * h + 1) t x = x ∧ rollingMedian1 (2 * h + 1) t x = x := by
+  cases t with
+  | none => exact inf_threshold_unchanged1 h x
+  | some t =>
+    simp only [mustBeUnchanged, Option.isNone_some, Bool.false_or] at hu
+    exact constant_unchanged1 h (some t) x (x.headD 0) h1 (allEq_spec x hu)
+
+example : mustBeUnchanged (some 0) [1 / 3, 1 / 3, 1 / 3, 1 / 3] = true ∧ mustBeUnchanged none [1, 2, 7] = true := by
+  decide +kernel
+
+/-- 2-D (the image given by its rows, the condition evaluated on the row-major pixel list). -/
+theorem unchanged_clause2 (h0 h1 n1 : Nat) (t : Option Rat) (x : List (List Rat))
+    (hrect : ∀ r ∈ x, r.length = n1) (hh0 : 1 ≤ h0) (hu : mustBeUnchanged t x.flatten = true) :
+    rollingMean2 (2 * h0 + 1) (2 * h1 + 1) t x = x ∧ rollingMedian2 (2 * h0 + 1) (2 * h1 + 1) t x = x := by
+  cases t with
+  | none =>
+    exact ⟨inf_threshold_unchanged2_mean h0 h1 n1 x hrect, inf_threshold_unchanged2_median h0 h1 n1 x hrect⟩
+  | some t =>
+    simp only [mustBeUnchanged, Option.isNone_some, Bool.false_or] at hu
+    refine constant_unchanged2 h0 h1 n1 (some t) x (x.flatten.headD 0) hrect hh0 ?_
+    intro r hr v hv
+    exact allEq_spec _ hu v (List.mem_flatten.mpr ⟨r, hr, hv⟩)
+
+example : mustBeUnchanged (some 3) ([[1 / 10, 1 / 10, 1 / 10], [1 / 10, 1 / 10, 1 / 10]] : List (List Rat)).flatten = true := by
+  decide +kernel
+
+/-! ## float level: why a constant image of a non-dyadic value does not come back bit for bit
+
+The theorems above are about exact arithmetic.  pewlib computes in binary floating point, where the
+mean of `n` copies of `c` need not be `c`.  Two statements about every rounded evaluation (any order
+of summation; `fl` is the rounding function) and kernel-evaluated witnesses for binary64. -/
+
+/-- Bound.  Under the standard model of floating-point arithmetic with unit roundoff `u`, whatever a
+rounded evaluation makes of a window mean of a constant image (weight 1: pads, window mean, masked
+window mean; depth at most `E` roundings) is within `((1+u)^E − 1)·|c|` of `c`.  The correspondence
+check accepts a changed constant image as the known finding only inside this bound
+(`E = h0 + h1 + b0·b1`, `u = 2⁻⁵³`). -/
+theorem rounded_mean_of_constant_within_bound (fl : Rat → Rat) (u c : Rat) (hu : 0 ≤ u)
+    (hfl : ∀ x, |fl x - x| ≤ u * |x|) (e : FExpr) (E : Nat) (hw : e.weight = 1) (hd : e.depth ≤ E) :
+    |e.eval fl c - c| ≤ constBound u E c := by
+  have h := FExpr.eval_bound fl u c hu hfl e
+  rw [hw, one_mul, one_mul] at h
+  unfold constBound
+  rw [absR_eq_abs]
+  exact h.trans (mul_le_mul_of_nonneg_right (FExpr.pow_sub_one_mono u hu hd) (abs_nonneg c))
+
+/-- the hypotheses are met by a rounding that really errs (it inflates every value by `u`), the mean of
+seven copies added left to right and the bound the check uses for a 1-D window of 7 -/
+example : (∀ x : Rat, |(x + (1 / 2 ^ 53) * x) - x| ≤ (1 / 2 ^ 53) * |x|) ∧
+    (FExpr.divn (FExpr.seqSum 7) 7).weight = 1 ∧ (FExpr.divn (FExpr.seqSum 7) 7).depth ≤ 3 + 7 := by
+  refine ⟨fun x => ?_, by decide +kernel, by decide⟩
+  have : x + (1 / 2 ^ 53) * x - x = (1 / 2 ^ 53) * x := by ring
+  rw [this, abs_mul, abs_of_pos (by positivity)]
+
+/-- Exactness.  A rounding function that leaves the numbers of the format alone returns `c` for every
+window mean of a constant image whose partial sums `j·c`, `j ≤ N`, are all numbers of the format
+(dyadic constants of few bits): such an image must come back bit for bit also from a float
+implementation, at every threshold.  The check demands exactly that (`sums_exact` of `c13.constinfo`). -/
+theorem rounded_mean_of_constant_exact (fl : Rat → Rat) (p : Nat) (emin : Int) (N : Nat) (c : Rat)
+    (hfl : ∀ q, isBin p emin q = true → fl q = q) (hs : sumsExact p emin N c = true)
+    (e : FExpr) (he : e.wf N = true) (hw : e.weight = 1) : e.eval fl c = c := by
+  rw [FExpr.eval_exact fl p emin N c hfl hs e he, hw, one_mul]
+
+/-- met by `c = 5/4`, windows of up to 49 values, binary64; `1/10` is not such a constant -/
+example : sumsExact 53 (-1074) 49 (5 / 4) = true ∧ (FExpr.divn (FExpr.seqSum 7) 7).wf 49 = true ∧
+    sumsExact 53 (-1074) 49 (1 / 10) = false ∧ isBin 53 (-1074) (3602879701896397 / 36028797018963968) = true := by
+  decide +kernel
+
+/-- Witness (binary64, NumPy's order of evaluation, evaluated by the kernel): the mean filter with
+window 7 and threshold 0 returns fifteen copies of `0.1` (`0x3FB999999999999A`) as fifteen copies of
+`0.10000000000000002` — every pixel one unit in the last place up.  Known finding
+`C13-constant-image-rounding`; pewlib returns these very bits (targeted case `witness`). -/
+theorem f64_mean_changes_constant :
+    F64.bits (List.replicate 15 0.1) = List.replicate 15 0x3FB999999999999A ∧
+    F64.bits (F64.rollingMean1 7 0.0 (List.replicate 15 0.1)) = List.replicate 15 0x3FB999999999999B := by
+  decide +kernel
+
+/-- the same signal: threshold 1 changes the three pixels at either end (their windows hold pad values,
+themselves rounded means), an infinite threshold changes nothing, the median filter changes nothing,
+and windows 3 and 5 change nothing (their masked sums `2c`, `4c` are exact) -/
+theorem f64_same_signal_otherwise :
+    F64.bits (F64.rollingMean1 7 1.0 (List.replicate 15 0.1))
+      = List.replicate 3 0x3FB999999999999B ++ List.replicate 9 0x3FB999999999999A ++ List.replicate 3 0x3FB999999999999B ∧
+    F64.bits (F64.rollingMean1 7 (1.0 / 0.0) (List.replicate 15 0.1)) = F64.bits (List.replicate 15 0.1) ∧
+    F64.bits (F64.rollingMedian1 7 0.0 (List.replicate 15 0.1)) = F64.bits (List.replicate 15 0.1) ∧
+    F64.bits (F64.rollingMean1 3 0.0 (List.replicate 15 0.1)) = F64.bits (List.replicate 15 0.1) ∧
+    F64.bits (F64.rollingMean1 5 0.0 (List.replicate 15 0.1)) = F64.bits (List.replicate 15 0.1) := by
+  decide +kernel
+
+/-- an interior pixel of `rolling_mean(np.full((15, 15), 1/3), (7, 7), threshold=0)`: the window mean of
+49 copies is not `1/3`, so the pixel counts as an outlier at threshold 0, and the mean of the other 48
+copies is one unit in the last place below `1/3` -/
+theorem f64_mean_changes_constant_2d :
+    let c : Float := 1.0 / 3.0
+    let cell := F64.meanCell c 3 3 (List.replicate 7 (List.replicate 7 c))
+    c.toBits = 0x3FD5555555555555 ∧ cell.m.toBits ≠ c.toBits ∧ (cell.out 0.0).toBits = 0x3FD5555555555554 := by
+  decide +kernel
 
 end Pew.Filters
